@@ -59,6 +59,30 @@ def corpus(ctx):
             # one of a few selections shared by many charts of the corpus (a batch job with one selection object)
             want = rng.choice([[(0, 3)], [(0, 3), (4, 3)], [(2, 2), (0, 0)], [(1, 3), (0, 2)]])
         cases.append((text, want))
+    # twins that are "the same chart" to a careless cache key: the text respelled under Unicode normal forms, other blanks, other case
+    # inside values. Each is its own text with its own fresh-interpreter reference; in a history they follow each other.
+    import re
+    import unicodedata
+    base = [c for c in cases if c[0].isprintable() or True][:5]
+    base.append(("[Song]\n{\n  Resolution = 192\n  Name = \"Caf\u00e9 \u212bngstr\u00f6m \ufb01n\"\n  Artist = \"\u30cf\u3099nd \uff21\"\n  Charter = \"Zo\u00eb\"\n}\n"
+                 "[SyncTrack]\n{\n  0 = TS 4\n  0 = B 120123\n  192 = B 98765\n}\n[Events]\n{\n  0 = E \"section Caf\u00e9\"\n  96 = E \"lyric \u00e9\u0301-\"\n"
+                 "  192 = E \"\u00c5 text\"\n}\n[ExpertSingle]\n{\n  0 = N 0 0\n  96 = E \u00e9\n  96 = N 1 10\n}\n", None))
+    cases.append(base[-1])
+    respells = (lambda t: unicodedata.normalize("NFD", t), lambda t: unicodedata.normalize("NFC", t), lambda t: unicodedata.normalize("NFKC", t),
+                lambda t: re.sub(r"(?m)$", "  ", t), lambda t: re.sub(r"(?m)^  ", "\t", t),
+                lambda t: re.sub(r'"[^"\n]*"', lambda m: m.group().swapcase(), t), lambda t: re.sub(r"[\u200b-\u200f\u2060\ufeff]", "", t))
+    # kind by kind, so that the reference parses (a few charts per fresh interpreter, in corpus order) never put two spellings of one
+    # chart into the same interpreter; in the first history every twin still comes after its original
+    def pad():
+        while len(cases) % 6:
+            cases.append(("[Song]\n{\n  Resolution = %d\n}\n[SyncTrack]\n{\n  0 = TS 4\n  0 = B 120000\n}\n[Events]\n{\n}\n" % (1000 + len(cases)), None))
+    pad()
+    for respell in respells:
+        for text, want in base:
+            tw = respell(text)
+            if tw != text and (tw, want) not in cases:
+                cases.append((tw, want))
+        pad()
     # two long tracks whose N 5 lines mean the same thing whatever else is being parsed at the same moment
     for tag in ("ExpertSingle", "ExpertDrums", "HardDrums", "ExpertDoubleBass"):
         body = "  0 = N 0 0\n" + "".join(f"  {10 * k} = N {k % 5} 0\n  {10 * k} = N 5 0\n" + ("  %d = S 0 1\n" % (10 * k) if k % 40 == 0 else "") for k in range(1, 260))
